@@ -260,7 +260,8 @@ Settle(ws) ==
       drop  == ws.dropped \/ (\E k \in 1..Len(rest) : rest[k].ovf)
       w1 == IF lost # <<>> /\ ~ws.fog /\ ws.phase = "open"
             THEN Bad(ws, {"C01"} \cup (IF lost[1].ino \in DOMAIN ws.uw /\ (ws.uw[lost[1].ino].st # "live" \/ ws.uw[lost[1].ino].path \in ws.readded)
-                                       THEN {"C09"} ELSE {}),
+                                       THEN {"C09"} ELSE {})
+                             \cup (IF ws.ovf THEN {"C10"} ELSE {}),      \* after an overflow the watcher must keep delivering
                      "lost:" \o OpName(lost[1].op)) ELSE ws
       w2 == IF drop /\ ws.gotOvf = 0 /\ ws.phase = "open" /\ ~ws.fog
             THEN Bad(w1, {"C01", "C10"}, "overflow_not_reported") ELSE w1
